@@ -27,6 +27,12 @@ func init() {
 			"ofmany/pos>=size", "ofmany/size=0", "ofmany/empty-sub", "ofmany/segments-carved-from-one-arena", "builder/extend-pos>=size", "builder/extend-size=0", "builder/extend-empty", "builder/set-0", "builder/set-1", "builder/presized", "builder/over-dirty-capacity", "roundtrip/trailing-zero-words", "probe/bitmap>=2^31-bits"},
 		Families: func(c *mon.Config) []mon.Family {
 			return []mon.Family{
+				{Name: "cold-start", N: 1, Serial: true, Run: func(w *mon.W, _ int) {
+					l := coldPick(coldBitmapCalls(), "Get/Get1/SafeGet/SafeGet1", "ToArray", "Of", "OfMany", "Builder")
+					if coldFirst(w, l) && coldLast(w, l) {
+						w.Bucket("cold-start")
+					}
+				}},
 				{Name: "of", Env: 6, N: c.Pick(40000, 4000000), Run: c12Of},
 				{Name: "roundtrip-zoo", Env: 4, N: c.Pick(10000, 1500000), Run: c12RoundTrip},
 				{Name: "ofmany", Env: 4, N: c.Pick(40000, 8000000), Run: c12OfMany},
